@@ -973,6 +973,10 @@ func Run(c *vh.Ctx) {
 				}
 				cfg.Seed++
 			}
+		case "cpmseq":
+			var cc cpmCase
+			json.Unmarshal(c.ReplayRaw, &cc)
+			cpmSequentialPart(c, m, cc.Ops)
 		case "resolve":
 			var cfg resolveCfg
 			json.Unmarshal(c.ReplayRaw, &cfg)
@@ -999,6 +1003,7 @@ func Run(c *vh.Ctx) {
 		return
 	}
 	sequentialPart(c, m)
+	cpmSequentialPart(c, m, nil)
 	if m != nil {
 		c.Res.ModelLines = m.Lines
 	}
